@@ -18,7 +18,7 @@ import (
 
 func TestMain(m *testing.M) {
 	document.SetGlobalLevel(document.LogLevelSilent)
-	kit.TestMain(m, 500, 5000)
+	kit.TestMain(m, 1200, 10000)
 }
 
 // ---- interpreter ------------------------------------------------------------------------------------------------------
